@@ -681,6 +681,7 @@ impl<'de, R: Read<'de>> Parser<R> {
             Token::VecOpen(close) => {
                 self.remaining_depth -= 1;
                 if self.remaining_depth == 0 {
+                    self.remaining_depth += 1;
                     return Err(self.peek_error(ErrorCode::RecursionLimitExceeded));
                 }
 
@@ -696,6 +697,7 @@ impl<'de, R: Read<'de>> Parser<R> {
             Token::ListOpen(close) => {
                 self.remaining_depth -= 1;
                 if self.remaining_depth == 0 {
+                    self.remaining_depth += 1;
                     return Err(self.peek_error(ErrorCode::RecursionLimitExceeded));
                 }
 
@@ -709,10 +711,18 @@ impl<'de, R: Read<'de>> Parser<R> {
                 }
             }
             Token::Quotation(name) => {
+                self.remaining_depth -= 1;
+                if self.remaining_depth == 0 {
+                    self.remaining_depth += 1;
+                    return Err(self.peek_error(ErrorCode::RecursionLimitExceeded));
+                }
+
+                let ret = self.next_value();
+
+                self.remaining_depth += 1;
+
                 // TODO: more specific error
-                let datum = self
-                    .next_value()?
-                    .ok_or_else(|| self.peek_error(ErrorCode::EofWhileParsingList))?;
+                let datum = ret?.ok_or_else(|| self.peek_error(ErrorCode::EofWhileParsingList))?;
                 Value::list(vec![Value::symbol(name), datum])
             }
         };
@@ -764,6 +774,7 @@ impl<'de, R: Read<'de>> Parser<R> {
             Token::VecOpen(close) => {
                 self.remaining_depth -= 1;
                 if self.remaining_depth == 0 {
+                    self.remaining_depth += 1;
                     return Err(self.peek_error(ErrorCode::RecursionLimitExceeded));
                 }
 
@@ -781,6 +792,7 @@ impl<'de, R: Read<'de>> Parser<R> {
             Token::ListOpen(close) => {
                 self.remaining_depth -= 1;
                 if self.remaining_depth == 0 {
+                    self.remaining_depth += 1;
                     return Err(self.peek_error(ErrorCode::RecursionLimitExceeded));
                 }
 
@@ -801,9 +813,18 @@ impl<'de, R: Read<'de>> Parser<R> {
             Token::Quotation(name) => {
                 // TODO: more specific error
                 let token_end = self.read.position();
-                let quoted = self
-                    .next_datum()?
-                    .ok_or_else(|| self.peek_error(ErrorCode::EofWhileParsingList))?;
+
+                self.remaining_depth -= 1;
+                if self.remaining_depth == 0 {
+                    self.remaining_depth += 1;
+                    return Err(self.peek_error(ErrorCode::RecursionLimitExceeded));
+                }
+
+                let ret = self.next_datum();
+
+                self.remaining_depth += 1;
+
+                let quoted = ret?.ok_or_else(|| self.peek_error(ErrorCode::EofWhileParsingList))?;
                 Datum::quotation(name, quoted, Span::new(start, token_end))
             }
         };
